@@ -1,5 +1,5 @@
 (* C16 property theorems: statements + `exact lemma` only. *)
-From CJ Require Import Common.Base C16.Model C16.Concrete C16.ProofsRead C16.ProofsHb C16.ProofsHb2 C16.ProofsFc C16.ProofsReg C16.ProofsMat.
+From CJ Require Import Common.Base C16.Model C16.Concrete C16.ProofsRead C16.ProofsHb C16.ProofsHb2 C16.ProofsFc C16.ModelMw C16.ProofsMw C16.ProofsReg C16.ProofsMat.
 
 (* ------------------------------------------------------------------ *)
 (* (i) SCTPConn.Read                                                   *)
@@ -185,6 +185,78 @@ Theorem C16_buffered_bounded_no_foreign :
     Forall (fun st => fbuf st <= 393216) (fc_trace fc_init ops).
 Proof. exact buffered_bounded_no_foreign. Qed.
 Print Assumptions C16_buffered_bounded_no_foreign.
+
+(* ------------------------------------------------------------------ *)
+(* (vi) any number of goroutines writing to one SCTPConn               *)
+(*      (threads are natural numbers; every size sequence, every       *)
+(*      interleaving of the atomic sections of Write, a network that   *)
+(*      drains by arbitrary amounts at arbitrary moments or never)     *)
+(* ------------------------------------------------------------------ *)
+
+(* the same fixed bound as for one writer: 256 KiB + one maximal write, plus what bypassed flow control *)
+Theorem C16_mw_buffered_bounded :
+  forall ops, Forall (fun st => mbuf st <= 393216 + mforeign st) (mw_trace VLocked mw_init ops).
+Proof. exact mw_buffered_bounded. Qed.
+Print Assumptions C16_mw_buffered_bounded.
+
+Theorem C16_mw_buffered_bounded_no_foreign :
+  forall ops, Forall (fun op => match op with MForeign _ => False | _ => True end) ops ->
+    Forall (fun st => mbuf st <= 393216) (mw_trace VLocked mw_init ops).
+Proof. exact mw_buffered_bounded_no_foreign. Qed.
+Print Assumptions C16_mw_buffered_bounded_no_foreign.
+
+(* as long as no token has been consumed (in particular: the network never drains) the bound is
+   writeMaxBufferedAmount itself *)
+Theorem C16_mw_buffered_bounded_no_token_taken :
+  forall ops, Forall (fun st => mtaken st = false -> mbuf st <= 262144 + mforeign st)
+                     (mw_trace VLocked mw_init ops).
+Proof. exact mw_buffered_bounded_no_token_taken. Qed.
+Print Assumptions C16_mw_buffered_bounded_no_token_taken.
+
+(* check, wait and write are one critical section: at most one writer is inside it *)
+Theorem C16_mw_mutual_exclusion :
+  forall ops st t1 t2, In st (mw_trace VLocked mw_init ops) ->
+    in_critical VLocked (mpcs st t1) = true -> in_critical VLocked (mpcs st t2) = true -> t1 = t2.
+Proof. exact mw_mutual_exclusion. Qed.
+Print Assumptions C16_mw_mutual_exclusion.
+
+(* a writer held back in the select has a token waiting, or the amount is still above the low
+   threshold (so the drain that brings it down posts one): no lost wake-up *)
+Theorem C16_mw_no_lost_wakeup :
+  forall ops st t n, In st (mw_trace VLocked mw_init ops) -> mpcs st t = MSel n ->
+    mtoken st = true \/ wthr < mbuf st.
+Proof. exact mw_no_lost_wakeup. Qed.
+Print Assumptions C16_mw_no_lost_wakeup.
+
+(* ... and it proceeds to stream.Write once the network has drained to the low threshold *)
+Theorem C16_mw_blocked_writer_proceeds :
+  forall ops st t n d, In st (mw_trace VLocked mw_init ops) -> mpcs st t = MSel n ->
+    mbuf st - d <= wthr -> mpcs (mw_run VLocked st [MDrain d; MTake t]) t = MGo n.
+Proof. exact mw_blocked_writer_proceeds. Qed.
+Print Assumptions C16_mw_blocked_writer_proceeds.
+
+(* whoever holds the mutex returns and releases it after at most six steps: its own and at most
+   one drain of the network; no other writer is touched *)
+Theorem C16_mw_holder_finishes :
+  forall ops0 st t, In st (mw_trace VLocked mw_init ops0) -> mlock st = Some t ->
+    exists ops, (length ops <= 6)%nat /\ Forall (own_or_drain t) ops /\
+                finished_from st t (mw_run VLocked st ops).
+Proof. exact mw_holder_finishes. Qed.
+Print Assumptions C16_mw_holder_finishes.
+
+(* no deadlock: from every reachable state every Write that has been started can return, by steps of
+   the writers and drains of the network alone (no Close needed) *)
+Theorem C16_mw_every_write_can_complete :
+  forall ops0 st t, In st (mw_trace VLocked mw_init ops0) ->
+    exists ops, Forall writer_or_drain ops /\ mpcs (mw_run VLocked st ops) t = MIdle.
+Proof. exact mw_every_write_can_complete. Qed.
+Print Assumptions C16_mw_every_write_can_complete.
+
+(* under the mutex, any number of writers is a run of the one-writer model of (iii) *)
+Theorem C16_mw_refines_fc :
+  forall ops, exists fops, mw_proj (mw_run VLocked mw_init ops) = fst (fc_run fc_init fops).
+Proof. exact mw_refines_fc. Qed.
+Print Assumptions C16_mw_refines_fc.
 
 (* ------------------------------------------------------------------ *)
 (* (iv) listener registry: any number of acceptor and connection       *)
